@@ -5,6 +5,7 @@ import Flowjaxv.Proofs.Triangular
 import Flowjaxv.Proofs.LogDet
 import Flowjaxv.Proofs.NetLawful
 import Flowjaxv.Proofs.Flows
+import Flowjaxv.Proofs.TriangularGen
 /-!
 # C01 — every bijection is invertible: inverse undoes transform, both ways
 
@@ -564,5 +565,48 @@ theorem bnaf_flow_instance (invert : Bool)
 
 end PremadeFlows
 /-! ## ===== END premade flows ===== -/
+
+section TriangularGen
+/-! ## TriangularAffine REGENERATED (`Gen/TriangularGen.lean`, translator `py2tri.py`, sheet `targets_triangular.py`)
+
+`__init__` (exception-valued), the nested `_to_triangular`, and the four methods are generated from `flowjax/bijections/affine.py` on
+every run; `solve_triangular` is the hand primitive `TriPrims.solveTriangular` = the forward / back substitution of
+`Model/Triangular.lean` (proved to solve above: `triangular_solve_lower/upper`); `unwrap` of the stored object is `TriGen.unwrap`. -/
+
+/-- **generated = hand model**: the four generated methods are the hand model's, for every dimension, every matrix (no shape
+hypothesis), every `loc`, both values of `lower`. -/
+theorem gen_triangular_eq_model {C : Type} (t : TriangularAffine ℝ) :
+    (TriGen.toBij t : Bij (List ℝ) C ℝ) = (TriGenPf.toModel t).toBij :=
+  TriGenPf.gen_toBij_eq t
+
+/-- `triangular_lawful` on the GENERATED methods: `triangular` lower (resp. upper) triangular `n × n` as `lower` says, non-zero
+diagonal of either sign, `loc ∈ ℝⁿ` — a lawful bijection of `ℝⁿ`. -/
+theorem gen_triangular_lawful {C : Type} {n : ℕ} {t : TriangularAffine ℝ} (h : TriPf.TriWF n (TriGenPf.toModel t)) :
+    (TriGen.toBij t : Bij (List ℝ) C ℝ).Lawful {x | x.length = n} {y | y.length = n} := by
+  rw [TriGenPf.gen_toBij_eq]; exact TriPf.triangular_lawful h
+
+/-- … from the stored raw arrays through the generated `_to_triangular` and `BijectionReparam.unwrap`: every raw diagonal value -/
+theorem gen_triangular_of_raw_lawful {C : Type} {n : ℕ} (lower : Bool) (raw : List ℝ) (arr : List (List ℝ))
+    (loc : List ℝ) (hsq : TriPf.Square n arr) (hr : raw.length = n) (hl : loc.length = n) :
+    (TriGen.toBij (TriGen.unwrap (TriGen.ofRaw lower raw arr loc)) : Bij (List ℝ) C ℝ).Lawful
+      {x | x.length = n} {y | y.length = n} := by
+  apply gen_triangular_lawful
+  rw [TriGenPf.gen_ofRaw_eq lower raw arr loc (TriGenPf.square_rows hsq hr)]
+  exact TriPf.ofRaw_wf lower raw arr loc hsq hr hl
+
+/-- … and for EVERY call the generated constructor accepts (any square matrix — the other triangle is ignored, the diagonal is
+reparameterised through SoftPlus — and a `loc` of size `n` or 1): the unwrapped object is a lawful bijection of `ℝⁿ`. -/
+theorem gen_triangular_init_lawful {C : Type} {n : ℕ} (loc : List ℝ) (m : List (List ℝ)) (lower : Bool)
+    (hsq : TriPf.Square n m) {s : TriangularAffineStored ℝ} (h : TriangularAffine.init loc (.mat m) lower = .ok s) :
+    (TriGen.toBij (TriGen.unwrap s) : Bij (List ℝ) C ℝ).Lawful {x | x.length = n} {y | y.length = n} :=
+  gen_triangular_lawful (TriGenPf.gen_init_wf loc m lower hsq h)
+
+/-- non-vacuity: an upper-triangular 2 × 2 matrix with a negative diagonal entry, on the generated record -/
+theorem gen_triangular_instance :
+    ((TriGen.toBij { triangular := [[2, 1], [0, -3]], loc := [1, 5], lower := false } : Bij (List ℝ) Unit ℝ)).Lawful
+      {x | x.length = 2} {y | y.length = 2} := by
+  rw [TriGenPf.gen_toBij_eq]; exact triangular_instance
+
+end TriangularGen
 
 end C01
